@@ -53,6 +53,24 @@ CLAIMS = {
                 'operations (serialisability), deadlock freedom of the lock graph and point-in-time reads.',
         'note': 'Not decided: races outside the listed mutators (add_fetched_tx vs filter_block is handled under C03); fairness.',
     },
+    'C06': {
+        'technique': 'static analysis: guard-flow typestate with statement-level comparison guards, loop guards and def-use provenance over compiler MIR',
+        'text': 'Decides for all paths of BlockFiltersProcess::execute that recording matched blocks, advancing the filtered height and '
+                'matching filter data happen only behind: a prove state, start == min_filtered+1, equal non-zero vector lengths and '
+                'a filter-hash chain in which no element differed; that limit/take/count/new height all derive from min(filters, known '
+                'hashes); that expected hashes and the parent hash originate only from finalized/cached/quorum hashes; and reports the '
+                'missing height binding of message block hashes (known finding F16).',
+        'note': 'Not decided: quorum semantics of the latest hashes (C07); GCS matching. Known finding F16 (hash/height binding) is listed in known_findings.json.',
+    },
+    'C07': {
+        'technique': 'static analysis: who-may-call, statement-guard flow, option-arm reachability, def-use of written indices, arithmetic-shape extraction over compiler MIR',
+        'text': 'Decides for all paths that finalized check points and the final index are written only from finalize_check_points (and '
+                'genesis init), only after both enough-proven-peers tests and only through a candidate assigned on the accepting edge of '
+                'count_max >= required; that writes start at last_final+1 with slice element 1 and the index range starts at 1 '
+                '(append-only, never rewritten, never decreasing); that the quorum is (max_outbound+1)/2; that per-peer vectors grow only '
+                'behind alignment/continuity/first-hash tests. The counting argument itself is a value clause.',
+        'note': 'Not decided: that fewer-than-quorum deviating peers cannot block agreement; check point arithmetic.',
+    },
 }
 
 _PENDING = 'check not built yet in this round (planned in DESIGN.md §5); not claimed until its rules run on the tree'
